@@ -96,13 +96,120 @@ def cases(ctx):
         yield {"version": version, "steps": gen.history(rng.choice([10, 40, 120]), version_reports=0.2)}
 
 
+BEHAVIOUR = {
+    # after a report that selects <proto>, in the SAME running listen() generator: (line, what differs between rule sets)
+    "2.0": ["0;255;3;0;14;ready\n", "1;255;3;0;22;5\n", "9;0;1;0;0;1\n"],
+    "2.1": ["0;255;3;0;14;ready\n", "1;255;3;0;22;5\n", "9;0;1;0;0;1\n"],
+    "2.2": ["0;255;3;0;14;ready\n", "1;255;3;0;32;\n", "1;255;3;0;22;5\n", "9;0;1;0;0;1\n"],
+    "1.5": ["0;255;3;0;14;ready\n", "1;255;3;0;15;\n", "9;0;1;0;0;1\n"],
+    "1.4": ["0;255;3;0;14;ready\n", "9;0;1;0;0;1\n", "1;255;3;0;15;\n"],
+}
+
+
+def rules_in_force_cases(ctx) -> None:
+    """The rules in force (handlers, not only type tables) must follow a report made inside a running generator.
+
+    Differential: the same probes on a gateway whose version was assigned before listen() started; a mismatch
+    (any property's clause) that only shows when the report arrives mid-stream is a C05 violation."""
+    from ..lscheck import execute
+
+    reports = {"1.4": "1.4", "1.5": "1.5.0", "2.0": "2.0.0", "2.1": "2.1.1", "2.2": "2.3.2"}
+    for initial in (None, "1.4", "1.5", "2.0", "2.1", "2.2"):
+        for proto, text in reports.items():
+            for form in ("0;255;3;0;2;{}\n", "0;255;0;0;18;{}\n"):
+                if not ctx.mine():
+                    continue
+                probes = [["rx", line] for line in BEHAVIOUR[proto]]
+                live = {"version": initial, "steps": PRE + [["rx", form.format(text)]] + probes}
+                mismatches, _ = execute(live)
+                ctx.case(("rules", initial, proto, form), sample=live)
+                ctx.clause("rules-in-force-after-report")
+                foreign = [m for m in mismatches if m.prop != "C05" and m.step > len(PRE)]
+                for m in mismatches:
+                    if m.prop == "C05":
+                        ctx.violation(m.key, f"step {m.step}: {m.what}", live)
+                if not foreign:
+                    continue
+                preset = {"version": text, "steps": PRE + ([["rx", form.format(text)]] if "0;255;0" in form else []) + probes}
+                control, _ = execute(preset)
+                if not [m for m in control if m.prop != "C05"]:
+                    m = foreign[0]
+                    ctx.violation("active-rules-not-those-of-reported-version",
+                                  f"after reporting {text!r} inside a running listen() the gateway does not behave by protocol "
+                                  f"{proto} rules (step {m.step}, {m.prop}/{m.key}: {m.what}); the same lines on a gateway "
+                                  f"whose version was set before listening are handled correctly", live)
+                else:
+                    ctx.obs("rules-case-other-property-mismatch")
+
+
+def persistence_entry_cases(ctx) -> None:
+    """'1.4 while no version has been reported' also holds right after entering the context with a persistence file
+    that remembers the gateway node of an earlier session."""
+    import asyncio
+    import json
+    import os
+    import shutil
+
+    from aiomysensors.exceptions import UnsupportedMessageError
+    from aiomysensors.gateway import Config, Gateway
+
+    from ..ctx import scratch_dir
+    from ..harness import ScriptedTransport, Stepper
+    from ..harness import run as arun
+    from .c14 import NATIVE
+
+    workdir = str(scratch_dir("c05"))
+    try:
+        for stored in ("2.2.0", "2.0.0", "1.5.1", "garbage"):
+            data = json.loads(json.dumps(NATIVE))
+            data["0"]["protocol_version"] = stored
+            path = os.path.join(workdir, "p.json")
+            with open(path, "w", encoding="utf-8") as fil:
+                json.dump(data, fil)
+            case = {"kind": "persistence-entry", "stored_gateway_version": stored}
+
+            async def scenario() -> None:
+                transport = ScriptedTransport()
+                gateway = Gateway(transport, Config(persistence_file=path))
+                async with gateway:
+                    ctx.clause("no-report-means-1.4")
+                    if gateway.protocol_version is not None or gateway.protocol.VERSION != "1.4":
+                        ctx.violation("version-assumed-without-report",
+                                      f"after entering the context (persisted gateway node version {stored!r}) and before any "
+                                      f"report: protocol_version={gateway.protocol_version!r}, active protocol "
+                                      f"{gateway.protocol.VERSION}", case)
+                        return
+                    stepper = Stepper(gateway, transport)
+                    kind, value = await stepper.rx("1;255;3;0;15;\n")
+                    if not (kind == "error" and isinstance(value, UnsupportedMessageError)):
+                        ctx.violation("version-assumed-without-report", "internal type 15 accepted before any version report",
+                                      case)
+                    if "0;255;3;0;2;\n" not in transport.writes:
+                        ctx.violation("version-assumed-without-report", f"no version query while the version is unknown "
+                                                                        f"(writes {transport.writes})", case)
+                    await stepper.close()
+
+            arun(scenario())
+            ctx.case(("persistence-entry", stored), sample=case)
+            _ = asyncio
+    finally:
+        shutil.rmtree(workdir, ignore_errors=True)
+
+
 def run_case(ctx, case: dict) -> None:
-    replay_case(ctx, case)
+    if case.get("kind") == "persistence-entry":
+        persistence_entry_cases(ctx)
+    else:
+        replay_case(ctx, case)
 
 
 def run(ctx) -> None:
     with Reach(ANCHORS) as reach:
         run_cases(ctx, cases(ctx))
+        rules_in_force_cases(ctx)
+        if ctx.shard_index == 0:
+            persistence_entry_cases(ctx)
     reach.into(ctx)
+    ctx.require("rules-in-force-after-report", 10)
     for clause in ("version-protocol", "outcome"):
         ctx.require(clause, 100)
